@@ -106,3 +106,11 @@ Theorem C17_m2s_direct_exact :
       louts (m2s_frame cfg m (Some b) c) = louts c ++ LRoute (get_vec m "targets") b :: tail /\
       quiet tail.
 Proof. exact m2s_direct_exact. Qed.
+
+(* The router reaches every live connection of a listed user only if its lookups WAIT for a busy map shard: a
+   non-blocking lookup (the try_ family) reports a shard that is merely being written as unavailable, and a pushed
+   direct message would be acknowledged and silently dropped.  Read off the CURRENT source by translator/locklint.py
+   (coq/Gen/LockLint.v is regenerated on every run): no such lookup, no guard alive across an await. *)
+From NW Require Import Gen.LockLint.
+Theorem C17_source_no_lossy_map_lookup : NW.Gen.LockLint.guard_across_await = [].
+Proof. reflexivity. Qed.
